@@ -44,9 +44,10 @@ class StopLeg(BaseException):
 
 
 class _Fut:
-    def __init__(self, r, idx):
+    def __init__(self, r, idx, ordinal=0):
         self.r = r
         self.idx = idx
+        self.ordinal = ordinal      # ordinal of the job's random stream: survives a restart
 
     def done(self):
         return True
@@ -99,7 +100,8 @@ class SyncRunner:
         md_in = pickle.loads(pickle.dumps(md))
         out = self.task(md_in)
         self.rec.write({"ev": "outcome", "idx": idx, "status": str(out.get("status")), "n_ens": len(ens)})
-        return _Fut(pickle.loads(pickle.dumps(out)), idx)
+        ordinal = _sid(next(iter(picked.values()))["ens"]["rgen"])[1]
+        return _Fut(pickle.loads(pickle.dumps(out)), idx, ordinal)
 
     def stop(self):
         pass
@@ -116,11 +118,24 @@ class Futures:
         self.snap = set(snap or [])
         self.rundir = rundir
         self.last_completed = None
+        # completion orders.  fifo / lifo / rand:<seed> act on the list of futures of THIS process; the ord-* orders
+        # are functions of the set of jobs in flight (identified by the ordinals of their random streams, which a
+        # restart preserves), so a straight run and a restarted run follow the same order.
         if policy.startswith("rand:"):
             self.rng = random.Random(policy)
             self.pick = lambda n: self.rng.randrange(n)
         elif policy == "lifo":
             self.pick = lambda n: n - 1
+        elif policy == "ord-max":
+            self.pick = lambda n: max(range(n), key=lambda i: self.l[i].ordinal)
+        elif policy == "ord-min":
+            self.pick = lambda n: min(range(n), key=lambda i: self.l[i].ordinal)
+        elif policy.startswith("ord-hash:"):
+            def pick(n):
+                order = sorted(range(n), key=lambda i: self.l[i].ordinal)
+                key = f"{policy}:{int(self.state.cstep)}:{[self.l[i].ordinal for i in order]}"
+                return order[random.Random(key).randrange(n)]
+            self.pick = pick
         else:
             self.pick = lambda n: 0
 
@@ -148,7 +163,7 @@ class Futures:
 
 
 # ----------------------------------------------------------------------------- run directories
-def _write_path(d, xs):
+def _write_path(d, xs, scale=0.25, cv2=False):
     os.makedirs(f"{d}/accepted")
     with open(f"{d}/accepted/init.lat", "w") as f:
         f.write("\n".join(map(str, xs)) + "\n")
@@ -159,31 +174,36 @@ def _write_path(d, xs):
     with open(f"{d}/order.txt", "w") as f:
         f.write("# Cycle: 0, status: ACC, move: ('ld', 0, 0, 0)\n#     Time       Orderp\n")
         for i, x in enumerate(xs):
-            f.write(f"{i:>10d} {x * 0.25:>12.6f}\n")
+            v = x * scale
+            f.write(f"{i:>10d} {v:>12.6f}" + (f" {v * v:>12.6f}" if cv2 else "") + "\n")
 
 
 def lattice_config(c):
     n = c["nintf"]
-    cfg = _lattice_config(c)
+    scale = float(c.get("scale", 0.25))
+    off = 1.0 if c.get("on_intf") else 0.5          # on_intf: interfaces exactly on lattice values
+    tis = {"maxlength": 400, "allowmaxlength": bool(c.get("allowmaxlength", True)), "zero_momentum": False, "n_jumps": 3}
     if c.get("cap") is not None:
-        cfg["simulation"]["tis_set"]["interface_cap"] = float(c["cap"])
-    return cfg
-
-
-def _lattice_config(c):
-    n = c["nintf"]
-    return {
+        tis["interface_cap"] = float(c["cap"])
+    if c.get("lm1") is not None:
+        tis["lambda_minus_one"] = float(c["lm1"])
+    if c.get("quantis"):
+        tis["quantis"] = True
+    eng = {"class": "LatticeEngine", "module": PLUGIN, "timestep": 1.0, "subcycles": 1, "wall": -6, "temperature": 1.0,
+           "scale": scale, "cv2": bool(c.get("cv2", False))}
+    cfg = {
         "runner": {"workers": c["workers"], "wmdrun": ["x"] * c["workers"]},
-        "simulation": {"interfaces": [(k + 0.5) * 0.25 for k in range(n)], "steps": c["steps"], "seed": c["seed"],
-                       "load_dir": "load", "shooting_moves": list(c["moves"]),
-                       "tis_set": {"maxlength": 400, "allowmaxlength": bool(c.get("allowmaxlength", True)),
-                                   "zero_momentum": False, "n_jumps": 3}},
-        "engine": {"class": "LatticeEngine", "module": PLUGIN, "timestep": 1.0, "subcycles": 1,
-                   "wall": -6, "temperature": 1.0},
-        "orderparameter": {"class": "LatticeOP", "module": PLUGIN},
-        "output": {"data_dir": "./", "screen": 0, "pattern": False, "delete_old": bool(c.get("delete_old", False)),
-                   "delete_old_all": bool(c.get("delete_old", False))},
+        "simulation": {"interfaces": [(k + off) * scale for k in range(n)], "steps": c["steps"], "seed": c["seed"],
+                       "load_dir": "load", "shooting_moves": list(c["moves"]), "tis_set": tis},
+        "engine": eng,
+        "orderparameter": {"class": "LatticeOP", "module": PLUGIN, "scale": scale, "cv2": bool(c.get("cv2", False))},
+        "output": {"data_dir": "./", "screen": int(c.get("screen", 0)), "pattern": False,
+                   "delete_old": bool(c.get("delete_old", False)),
+                   "delete_old_all": bool(c.get("delete_old_all", c.get("delete_old", False)))},
     }
+    if c.get("quantis"):
+        cfg["engine0"] = dict(eng)
+    return cfg
 
 
 def prepare(op):
@@ -193,10 +213,17 @@ def prepare(op):
     os.makedirs(d)
     if op["engine"] == "lattice":
         os.makedirs(f"{d}/load")
-        _write_path(f"{d}/load/0", [1, 0, -1, -2, -1, 0, 1])
-        for k in range(1, c["nintf"]):
-            up = list(range(0, k + 1))
-            _write_path(f"{d}/load/{k}", up + up[::-1][1:])
+        sc, cv2 = float(c.get("scale", 0.25)), bool(c.get("cv2", False))
+        if c.get("on_intf"):      # interfaces at x = 1, 2, …: paths start/end on the far side of lambda_0
+            _write_path(f"{d}/load/0", [1, 0, -1, -2, -1, 0, 1], sc, cv2)
+            for k in range(1, c["nintf"]):
+                up = list(range(0, k + 2))
+                _write_path(f"{d}/load/{k}", up + up[::-1][1:], sc, cv2)
+        else:
+            _write_path(f"{d}/load/0", [1, 0, -1, -2, -1, 0, 1] if c.get("lm1") is None else [1, 0, -1, 0, 1], sc, cv2)
+            for k in range(1, c["nintf"]):
+                up = list(range(0, k + 1))
+                _write_path(f"{d}/load/{k}", up + up[::-1][1:], sc, cv2)
         cfg = lattice_config(c)
     else:
         base = f"{REPO}/examples/turtlemd/double_well"
@@ -211,10 +238,10 @@ def prepare(op):
         if c.get("cap") is not None:
             cfg["simulation"]["tis_set"]["interface_cap"] = float(c["cap"])
         cfg["runner"]["workers"] = c["workers"]
-        cfg["output"]["screen"] = 0
+        cfg["output"]["screen"] = int(c.get("screen", 0))
         cfg["output"]["pattern"] = 0
         cfg["output"]["delete_old"] = bool(c.get("delete_old", True))
-        cfg["output"]["delete_old_all"] = bool(c.get("delete_old", True))
+        cfg["output"]["delete_old_all"] = bool(c.get("delete_old_all", c.get("delete_old", True)))
     with open(f"{d}/infretis.toml", "wb") as f:
         tomli_w.dump(cfg, f)
 
@@ -300,20 +327,33 @@ def run_leg(op):
         return {"ok": True, "how": "killed"}
 
 
-def leg_in_child(op):
-    """fork, run the leg in the child, hand the result back through a pipe"""
+def leg_in_child(op, many=None):
+    """fork, run the leg (or, `many`: several legs one after the other in the SAME process) in the child, hand the
+    result back through a pipe; a leg that does not return within its time limit is killed and reported"""
+    import select
+    import signal
     r, w = os.pipe()
     pid = os.fork()
     if pid == 0:
         code = 0
         try:
             os.close(r)
+            os.setsid()
             # whatever an engine prints must not reach the server's line protocol
             dn = os.open(os.devnull, os.O_WRONLY)
             os.dup2(dn, 1)
             os.dup2(dn, 2)
             try:
-                res = run_leg(op)
+                if many is None:
+                    res = run_leg(op)
+                else:
+                    res = {"ok": True, "how": []}
+                    for one in many:
+                        r1 = run_leg(one)
+                        res["how"].append(r1.get("how"))
+                        if not r1.get("ok"):
+                            res = r1
+                            break
             except BaseException as e:  # noqa: BLE001
                 res = {"ok": False, "error": f"{type(e).__name__}: {e}", "trace": traceback.format_exc()[-3000:]}
             with os.fdopen(w, "w") as f:
@@ -323,8 +363,22 @@ def leg_in_child(op):
         finally:
             os._exit(code)
     os.close(w)
+    limit = float((op or {}).get("timeout", 600) if many is None else 600 * len(many))
+    data = ""
     with os.fdopen(r) as f:
-        data = f.read()
+        ready, _, _ = select.select([f], [], [], limit)
+        if ready:
+            data = f.read()
+        else:
+            try:
+                os.killpg(pid, signal.SIGKILL)
+            except OSError:
+                try:
+                    os.kill(pid, signal.SIGKILL)
+                except OSError:
+                    pass
+            os.waitpid(pid, 0)
+            return {"ok": False, "error": f"leg did not return within {limit:.0f} s (killed)"}
     os.waitpid(pid, 0)
     try:
         return json.loads(data)
@@ -351,6 +405,14 @@ def run_scenario(sc):
                 prepare(op)
             elif op["op"] == "copy":
                 shutil.copytree(op["src"], op["dst"])
+            elif op["op"] == "legs1p":      # several legs in ONE process (module-level state is shared)
+                res = leg_in_child(None, many=op["legs"])
+                out["legs"].append(res)
+                if not res.get("ok"):
+                    out["ok"] = False
+                    out["error"] = res.get("error")
+                    out["trace"] = res.get("trace")
+                    break
             elif op["op"] == "leg":
                 res = leg_fresh(op) if op.get("fresh") else leg_in_child(op)
                 out["legs"].append(res)
@@ -399,7 +461,8 @@ class LegPool:
         for v in ("OMP_NUM_THREADS", "OPENBLAS_NUM_THREADS", "MKL_NUM_THREADS"):
             env[v] = "1"
         self.procs = [subprocess.Popen([sys.executable, os.path.abspath(__file__), "--serve"], stdin=subprocess.PIPE,
-                                       stdout=subprocess.PIPE, stderr=subprocess.DEVNULL, text=True, env=env, cwd="/var/tmp")
+                                       stdout=subprocess.PIPE, stderr=subprocess.DEVNULL, text=True, env=env, cwd="/var/tmp",
+                                       start_new_session=True)
                       for _ in range(nproc)]
 
     def map(self, scenarios):
@@ -430,11 +493,19 @@ class LegPool:
                 p.stdin.close()
             except Exception:  # noqa: BLE001
                 pass
+        import signal
         for p in self.procs:
             try:
                 p.wait(timeout=10)
             except Exception:  # noqa: BLE001
-                p.kill()
+                try:
+                    os.killpg(p.pid, signal.SIGKILL)
+                except OSError:
+                    p.kill()
+                try:
+                    p.wait(timeout=5)
+                except Exception:  # noqa: BLE001
+                    pass
 
 
 if __name__ == "__main__":
